@@ -139,8 +139,9 @@ TRIAGE_RULES = [
     ("<" + P + "generator::actions::production::ProductionActionsGenerator<'_> as *>::nonterminal_*/unreachable/*", INV,
      "nonterminal types are never Terminal; Vec kind implies every choice is Empty | Ref | Struct[1..2 fields] (get_type_kind sets no_match otherwise: C16-R6)"),
     ("<" + P + "generator::actions::production::ProductionActionsGenerator<'_> as *>::nonterminal_actions/index/*", INV, "full-range slice for slice patterns"),
-    ("<" + P + "generator::actions::production::ProductionActionsGenerator<'_> as *>::nonterminal_types/unwrap/*", INV,
-     "Field::parse_named on a fixed `pub name: Type` template with validated identifiers (C16-R4)"),
+    ("<" + P + "generator::actions::production::ProductionActionsGenerator<'_> as *>::nonterminal_types/unwrap/*", FIND,
+     "a symbol whose snake_case form is a Rust keyword (rule `Do` -> field `do`, `Type` -> `type`) passes check_identifier "
+     "but Field::parse_named.parse2(..).unwrap() panics in the actions generator (D21)"),
     (P + "grammar::*/index/*", INV, "typed index"),
     (P + "table::*/index/*", INV, "typed index"),
 ]
